@@ -4,3 +4,9 @@
 mod stubs;
 #[cfg(kani)]
 mod c07;
+#[cfg(kani)]
+mod c06;
+#[cfg(kani)]
+mod c08;
+#[cfg(kani)]
+mod c04;
